@@ -89,6 +89,11 @@ def drained_violations(world, label_filter=None):
         return out
     for side in "AB":
         s = world.sctp[side]
+        if not s._sent_queue and not s._outbound_queue and s._flight_size != 0:
+            # nothing is outstanding, yet the implementation's own count of outstanding bytes is not zero: the
+            # window is (partly) closed for ever - every further leak adds up until flight size >= cwnd
+            out.append(("liveness/flight-size-leak",
+                        "%s: nothing outstanding or queued but flight_size=%d (cwnd=%d)" % (side, s._flight_size, s._cwnd)))
         if s._sent_queue or s._outbound_queue or s._data_channel_queue:
             out.append(("liveness/queues",
                         "%s: sent_queue=%d outbound_queue=%d dc_queue=%d flight=%d cwnd=%d" % (
